@@ -196,6 +196,16 @@ func genC01(t *rapid.T) c01Case {
 			lines = append(lines, pick(t, "noise-line", []string{"! comment", "", "# hosts comment", "##.cosmetic", "0.0.0.0 example.org", "||bad^$unknown"}))
 		}
 	}
+	if chance(t, "giant-domain-rule", 15) {
+		// one rule line of more than 4096 bytes: hundreds of $domain values, short shortcut
+		var ds []string
+		for i := 0; i < rapid.IntRange(260, 420).Draw(t, "ndomains"); i++ {
+			ds = append(ds, fmt.Sprintf("site%04d.example", i))
+		}
+		pat := pick(t, "giant-pat", []string{"ab", "/x", "ad"})
+		lines = append(lines, pat+"$domain="+strings.Join(ds, "|"))
+		models = append(models, NetModel{Pat: pat, DPerm: []string{ds[len(ds)-1], ds[len(ds)/2], ds[0]}})
+	}
 	mass := chance(t, "mass-block", 25)
 	if mass {
 		// several hundred distinct rules sharing one single-window shortcut: the histogram counter of that window grows large
